@@ -16,7 +16,7 @@ func init() {
 		Explanation: "Structural necessary conditions of C10: (R10.1) *ScryptRecipient implements RecipientWithLabels and its labels result is [hex(Rand(16))] drawn from crypto/rand in that call; " +
 			"(R10.2) in ScryptIdentity.Unwrap and cmd/age LazyScryptIdentity.Unwrap every call that does work is dominated by the exit of a loop over all stanzas whose only early exit is a non-sentinel error under exactly (Type==\"scrypt\" and len(stanzas)!=1); " +
 			"(R10.3) scrypt.Key in ScryptIdentity.unwrap is dominated by digitsRe.MatchString(arg), Atoi error nil and logN <= i.maxWorkFactor, and its N is 1<<logN of that same value; " +
-			"(R10.4) maxWorkFactor is stored only by the constructor (spec default) and SetMaxWorkFactor under 1<=logN<=30; (R10.5) digitsRe is equivalent to ^[1-9][0-9]*$ after regexp/syntax simplification. Encryption-side refusal rests on R10.1 plus C11's label comparison.",
+			"(R10.4) maxWorkFactor is stored only by the constructor (spec default) and SetMaxWorkFactor under 1<=logN<=30; (R10.5) digitsRe is equivalent to ^[1-9][0-9]*$ after regexp/syntax simplification. Encryption-side refusal rests on R10.1 plus C11's label comparison. (R10.6) Unwrap/unwrap of the passphrase identity write nothing reachable from the receiver.",
 		NotDecided:  "that crypto/rand labels never collide; the cost of scrypt.Key as a quantity.",
 		Assumptions: []string{"regexp.MatchString, strconv.Atoi behave as documented"},
 		Run:         runC10,
